@@ -34,6 +34,9 @@ type scen struct {
 	//  "stale-zero":      frame 1 -> BUFFER 5; a BUFFER 0 for frame 1 crosses frame 2; frame 2 -> BUFFER 5; Flush is called;
 	//                     the TNC reports BUFFER 0 300 ms later.  Flush must not return before that report.
 	Script string `json:"script"`
+	// DiscAfter: the remote station disconnects (NEWSTATE DISC, DISCONNECTED) right after the last ARQ frame, and the
+	// application starts reading only afterwards: it must still get every byte, then end-of-stream
+	DiscAfter bool `json:"discafter"`
 }
 
 func guard(f func()) (pan string) {
@@ -219,8 +222,13 @@ func runScenario(sc scen) []rec.Event {
 		var mu sync.Mutex
 		readDone := make(chan struct{})
 		var rpan string
+		startRead := make(chan struct{})
+		if !sc.DiscAfter {
+			close(startRead)
+		}
 		go func() {
 			defer close(readDone)
+			<-startRead
 			rpan = guard(func() {
 				buf := make([]byte, sc.ReadBuf)
 				for {
@@ -249,6 +257,12 @@ func runScenario(sc scen) []rec.Event {
 				sim.SendCmd("INPUTPEAKS 123 456")
 			}
 			sim.SendData("ARQ", p)
+		}
+		if sc.DiscAfter {
+			sim.SendCmd("NEWSTATE DISC")
+			sim.SendCmd("DISCONNECTED")
+			time.Sleep(300 * time.Millisecond)
+			close(startRead)
 		}
 		deadline := time.Now().Add(3 * time.Second)
 		for time.Now().Before(deadline) {
@@ -658,6 +672,8 @@ func Main(args []string) int {
 	}
 	mk(func(s *scen) { s.Kind = "inbound"; s.Frames = []int{4095, 4096, 4097}; s.ReadBuf = 4096 })
 	mk(func(s *scen) { s.Kind = "inbound"; s.Frames = []int{65529, 65530}; s.ReadBuf = 70000 })
+	mk(func(s *scen) { s.Kind = "inbound"; s.Frames = []int{28, 28, 28, 28, 28, 28, 28, 28}; s.ReadBuf = 7; s.DiscAfter = true })
+	mk(func(s *scen) { s.Kind = "inbound"; s.Frames = []int{100, 200, 300}; s.ReadBuf = 512; s.DiscAfter = true })
 	mk(func(s *scen) { s.Kind = "listen"; s.Frames = []int{40, 400}; s.ReadBuf = 4096 })
 	mk(func(s *scen) { s.Kind = "listen"; s.Frames = []int{40, 400}; s.ReadBuf = 64; s.Noise = true })
 	for i := 0; i < *n; i++ {
